@@ -67,6 +67,7 @@ type kinWorld struct {
 	cut          map[[2]uint64]map[int]bool // (round, checkpoint id) -> shards finished ahead of the barrier, as acknowledged so far
 	finishedAt   map[uint64]map[int]bool    // checkpoint id -> shards finished ahead of the barriers of the snapshot published under that id
 	readers      map[string]*kinReader      // source runner id -> its current reader
+	pubRound     map[uint64]int             // checkpoint id -> splitter incarnation that published it
 	assignedIn   map[int]map[int]string     // round -> shard -> runner
 	producerDone bool
 	nShards      int
@@ -216,7 +217,7 @@ func newKinWorld(w *cluWorld, src *simSource) (*kinWorld, error) {
 	c := w.c
 	dr := mrand.New(mrand.NewPCG(uint64(c.Cfg("dataseed", 1)), 33))
 	k := &kinWorld{w: w, parents: map[int][]int{}, closed: map[int]bool{}, finished: map[int]bool{}, finishedEver: map[int]bool{}, finishedAt: map[uint64]map[int]bool{}, assignedIn: map[int]map[int]string{},
-		base: map[int]map[int]bool{}, cut: map[[2]uint64]map[int]bool{}, readers: map[string]*kinReader{}}
+		base: map[int]map[int]bool{}, cut: map[[2]uint64]map[int]bool{}, readers: map[string]*kinReader{}, pubRound: map[uint64]int{}}
 	R, nkeys := int(c.Cfg("records", 10))*2, int(c.Cfg("nkeys", 2))
 	nReshard := int(c.Cfg("reshards", 2))
 	// plan: records in put steps of 1..6, reshard steps spread between them
@@ -474,6 +475,20 @@ func (s *kinSplitter) Start(ckpt *snapshotpb.SourceCheckpoint) error {
 				break
 			}
 		}
+		if pr, ok := k.pubRound[ckpt.CheckpointId]; ok {
+			var handed []int
+			for sh := range k.assignedIn[pr] {
+				handed = append(handed, sh)
+			}
+			sort.Ints(handed)
+			for _, sh := range handed {
+				if !tracked[sh] && !inCkpt[sh] && !ahead[sh] && shardName(sh) <= st.LastAssignedShardId {
+					k.w.c.AddTag("the restored checkpoint has no trace of a shard that was handed out after its reader's barrier and finished before the checkpoint completed")
+					k.w.c.Probe("restore-with-shard-handed-out-and-finished-during-checkpoint")
+					break
+				}
+			}
+		}
 		k.mu.Unlock()
 		for _, sh := range sortedInts(inCkpt) {
 			if !tracked[sh] {
@@ -579,6 +594,7 @@ func (k *kinWorld) onPublished(id uint64) {
 		cp[s] = true
 	}
 	k.finishedAt[id] = cp
+	k.pubRound[id] = k.round
 	k.mu.Unlock()
 }
 
